@@ -10,7 +10,7 @@ from .facts import parse_path, strip_generics, split_top, ty_adt
 
 # ----------------------------------------------------------------------------- helpers
 PANIC_CALLS = {'unwrap', 'expect', 'remove', 'swap_remove', 'insert', 'split_at', 'split_at_mut', 'copy_from_slice',
-               'unwrap_unchecked', 'try_into'}
+               'unwrap_unchecked'}
 ALLOC_CALLS = {'with_capacity', 'from_elem', 'reserve', 'reserve_exact', 'resize', 'resize_with'}
 
 
@@ -72,8 +72,6 @@ INDEX_EXCEPTIONS = {
 CALL_EXCEPTIONS = {
     ('read_exact', 'copy_from_slice'):
         dict(reason='destination and source slices both have length n = bytes.len() after the remaining() guard', need_guard_call='remaining'),
-    ('from_bytes', 'try_into'):
-        dict(reason='HashOut::from_bytes is fed by read_hash with a buffer of the constant size H::HASH_SIZE (4 x 8 bytes): every chunks(8) item has 8 bytes and there are 4 elements', need_const='HASH_SIZE'),
     ('from_bytes', 'unwrap'):
         dict(reason='see try_into: conversion of constant-size chunks cannot fail', need_const='HASH_SIZE'),
 }
@@ -127,6 +125,17 @@ def run(F, ck, tier):
                 ck.ob('R18.4', key, not rt, ('allocation sized by a value read from the input (%s): a length field in the bytes can request an unbounded allocation' % ', '.join(rt[:3])) if rt
                       else 'allocation size comes from circuit data / constants', e.loc())
         ck.floor('R18.4', 'allocation sites in %s closure' % fn.name, nalloc, 3)
+    # serde visitors are decoders too: the bytes / sequence handed to visit_* come straight from the input
+    nvis = 0
+    for fn in sorted(F.fns.values(), key=lambda f: f.qual):
+        if fn.crate not in ('plonky2', 'starky', 'plonky2_field') or fn.body is None or not fn.name.startswith('visit_'):
+            continue
+        from .facts import pat_binds
+        roots_v = {b['n'] for p in fn.params for b in pat_binds(p)} - {'self'}
+        flv = flow.Flow(F, fn, track_idx=True)
+        nvis += 1
+        nsites += panic_sites(ck, 'R18.1', flv, fn, lambda v, r=roots_v: tainted(v, r), 'visitor')
+    ck.floor('R18.1', 'serde visitor methods examined', nvis, 2)
     ck.floor('R18.1', 'panic-capable sites examined in validator/decoder closures', nsites, 10)
 
     # ---------------------------------------------------------------- R18.2 pins
@@ -359,6 +368,9 @@ def panic_sites(ck, rule, fl, root_fn, taint, kind):
             # fixed arrays indexed by literals are compile-time checked
             bt = e.fn.ty(e.node['e']) or ''
             if bt.startswith('[') and e.node['i'].get('k') == 'Lit':
+                continue
+            # a fixed-size array can only be indexed out of bounds by its INDEX: tainted contents do not matter
+            if bt.startswith('[') and ';' in bt and not taint(e.args[0]):
                 continue
             site = ('index', base_name(e.node), t)
         elif e.kind == 'call' and e.name in PANIC_CALLS:
